@@ -1332,11 +1332,7 @@ func (fc *funcContext) translateImplicitConversion(expr ast.Expr, desiredType ty
 		}
 		// Arrays and structs are values: the interface must hold its own copy, unless
 		// the operand is a fresh value that nothing else refers to.
-		fresh := false
-		switch astutil.RemoveParens(expr).(type) {
-		case *ast.CompositeLit, *ast.CallExpr:
-			fresh = true
-		}
+		fresh := fc.isFreshValue(expr)
 		if isWrapped(exprType) {
 			if _, isArray := exprType.Underlying().(*types.Array); isArray && !fresh {
 				return fc.formatExpr("new %1s($clone(%2e, %1s))", fc.typeName(exprType), expr)
@@ -1352,6 +1348,22 @@ func (fc *funcContext) translateImplicitConversion(expr ast.Expr, desiredType ty
 	}
 
 	return fc.translateExpr(expr)
+}
+
+// isFreshValue reports whether the expression yields an array or struct value that nothing
+// else refers to: a composite literal or the result of a function call (a conversion T(x) is
+// a call syntactically, but yields x itself).
+func (fc *funcContext) isFreshValue(expr ast.Expr) bool {
+	switch e := astutil.RemoveParens(expr).(type) {
+	case *ast.CompositeLit:
+		return true
+	case *ast.CallExpr:
+		if tv, ok := fc.pkgCtx.Types[e.Fun]; ok && tv.IsType() {
+			return false
+		}
+		return true
+	}
+	return false
 }
 
 func (fc *funcContext) translateConversionToSlice(expr ast.Expr, desiredType types.Type) *expression {
